@@ -452,6 +452,9 @@ class NetworkService(ModelElement):
         :param kwargs: typically labels and capacities to put on the interface facing the other service
         """
         assert(isinstance(ns, NetworkService))
+        if ns.node_id == self.node_id:
+            # two handles of one service may carry different names (e.g. after a rename)
+            raise TopologyException(f"Network service {self.name} cannot peer with itself")
         self_iface = self.add_interface(name=self.name + '-' + ns.name, itype=InterfaceType.ServicePort, **kwargs)
         try:
             other_iface = ns.add_interface(name=ns.name + '-' + self.name, itype=InterfaceType.ServicePort)
